@@ -6,6 +6,8 @@ export PUBLISH_SKIP_BUILD=1 CARGO_NET_OFFLINE=true CARGO_TARGET_DIR="$PWD/build/
 mkdir -p build/cases evidence replays
 python3 tools/gen_tables.py || true
 ( cd coq && coq_makefile -f _CoqProject $(ls theories/*.v gen/*.v properties/*.v) -o Makefile >/dev/null 2>&1 && ls theories/*.v properties/*.v gen/*.v | sort > /dev/null && timeout 3000 make -j16 -k ) || true
+# the models of C16 / C03 extracted to OCaml (bulk correspondence runs)
+( timeout 600 sh mlrun/build.sh ) || true
 [ -f harness/Cargo.lock ] || cp harness/Cargo.lock.pinned harness/Cargo.lock
 ( cd harness && timeout 3000 cargo build --release --offline -q ) || true
 echo setup done
